@@ -532,6 +532,28 @@ async def drive_stdio(objs):
     return out
 
 
+async def drive_stdio_text(objs):
+    """The same messages handed to the REAL stdio writer as PRE-SERIALISED JSON text the way an application may do it:
+    pretty printed (line breaks inside), not ASCII-escaped, LF / CRLF / trailing newline in turn."""
+    texts = []
+    for k, o in enumerate(objs):
+        try:
+            if isinstance(o, Base):
+                v = json.loads(o.model_dump_json(exclude_none=True))
+            elif isinstance(o, dict):
+                v = json.loads(json.dumps(o))
+            else:
+                texts.append(None)
+                continue
+            t = json.dumps(v, indent=1, ensure_ascii=False)
+            texts.append([t, t.replace("\n", "\r\n"), t + "\n"][k % 3])
+        except BaseException:  # noqa: BLE001
+            texts.append(None)
+    sent = [t for t in texts if t is not None]
+    got = iter(await drive_stdio(sent)) if sent else iter(())
+    return [next(got) if t is not None else None for t in texts]
+
+
 async def drive_http(objs):
     import chuk_mcp.transports.http.transport as T
     from chuk_mcp.transports.http.parameters import StreamableHTTPParameters
@@ -591,7 +613,7 @@ def decode_bytes(b, how):
     if b is None:
         return {"fail": "nothing written"}
     try:
-        if how == "stdio":
+        if how.startswith("stdio"):
             if not b.endswith(b"\n") or b.count(b"\n") != 1:
                 return {"fail": "not exactly one line"}
             return {"value": jval(FJ.loads(b.decode("utf-8").strip()))}
@@ -627,7 +649,7 @@ async def run_all(cases):
     driven = {}
     if pending:
         objs = [p[2] for p in pending]
-        for name, fn in (("stdio", drive_stdio), ("http", drive_http), ("sse", drive_sse)):
+        for name, fn in (("stdio", drive_stdio), ("stdiotext", drive_stdio_text), ("http", drive_http), ("sse", drive_sse)):
             try:
                 outs = await fn(objs)
             except BaseException as e:  # noqa: BLE001
